@@ -43,7 +43,7 @@ RENDER_OPTS = st.fixed_dictionaries({
     "fw": st.sampled_from(gen.FRAMEWORKS), "nested": st.booleans(),
     "max_literals": st.sampled_from([10, 0, 2]), "pic": st.booleans(), "meta": st.booleans(),
     # explicit types_style overrides of the documented kind (None = generator defaults)
-    "style": st.sampled_from([None, None, None, "no-actual-type", "no-literals", "actual-type"])})
+    "style": st.sampled_from([None, None, None, "no-actual-type", "no-literals", "actual-type", "int-no-actual-type"])})
 
 
 @st.composite
@@ -124,7 +124,7 @@ def valid(case):
                     return False
             elif k in ("render", "render_failing", "render_model"):
                 if not (isinstance(op[1], int) and 0 <= op[1] <= 2 and op[2].get("fw") in pl.FRAMEWORKS and c01.opts_valid(op[2])
-                        and op[2].get("style") in (None, "no-actual-type", "no-literals", "actual-type")):
+                        and op[2].get("style") in (None, "no-actual-type", "no-literals", "actual-type", "int-no-actual-type")):
                     return False
                 if k == "render_model" and not (len(op) == 4 and isinstance(op[3], int) and 0 <= op[3] <= 50):
                     return False
